@@ -48,9 +48,9 @@ package cache
 //@   ensures[C11] forall x *nri.PodSandbox :: old(alive(x)) ==> x.Id == old(x.Id)
 //@   ensures[C11] forall x *nri.Container :: old(alive(x)) ==> x.Id == old(x.Id) && x.PodSandboxId == old(x.PodSandboxId) && x.State == old(x.State)
 
-// GetPodResources waits for the pod-resources fetch goroutine (channel receive: outside the verified subset);
-// the result is arbitrary (possibly nil), nothing reachable from the cache is written.
-//@ assume-contract (*pod).GetPodResources
+// GetPodResources waits for the pod-resources fetch goroutine (the channel receive yields an arbitrary value);
+// the result is the pod's current PodResources (possibly nil), nothing is written.
+//@ func (*pod).GetPodResources safety
 //@   requires p != nil
 //@   modifies nothing
 
@@ -130,16 +130,19 @@ package cache
 
 // ---- insert / delete ----------------------------------------------------------------------------------------
 
-// The pod-resources fetch runs in a goroutine (go statement, channels: outside the subset); it writes only the
-// three pod fields below.
-//@ assume-contract (*pod).goFetchPodResources
+// The pod-resources fetch runs in a goroutine. The engine follows two schedules of it (ran to completion at the spawn
+// point / has not started when goFetchPodResources returns). C15: when the call returns, the fields a later reader
+// synchronises on are in place whatever the schedule - GetPodResources then waits on waitResCh until the result is in.
+//@ func (*pod).goFetchPodResources safety
 //@   requires p != nil
 //@   modifies p.podResCh, p.waitResCh, p.PodResources
+//@   ensures[C15] p.waitResCh != nil && p.podResCh == ch
 
 //@ func (*cache).createPod safety
 //@   requires cch != nil
 //@   modifies nothing
 //@   ensures[C14] fresh(result) && result.Pod == nriPod && result.cache == cch
+//@   ensures[C15] result.podResCh == ch && result.waitResCh != nil
 
 //@ func (*cache).InsertPod safety
 //@   requires cacheOK(cch) && nriPod != nil
@@ -148,6 +151,9 @@ package cache
 //@   ensures[C14] forall id string :: id != nriPod.Id ==> cch.Pods[id] == old(cch.Pods[id])
 //@   ensures[C14] dom(cch.Containers) == old(dom(cch.Containers)) && vals(cch.Containers) == old(vals(cch.Containers))
 //@   ensures[C11] asPod(result).Pod == nriPod && fresh(asPod(result))
+//@   # C15: the fetch handed over with the request is the one the cached pod waits for - every later reader of the pod's
+//@   # resources (GetPodResources) finds the wait channel in place
+//@   ensures[C15] asPod(cch.Pods[nriPod.Id]).podResCh == ch && asPod(cch.Pods[nriPod.Id]).waitResCh != nil
 //@   ensures[C11] old(keyed(cch)) ==> keyed(cch)
 //@   ensures[C11] old(podKeyed(cch)) ==> podKeyed(cch)
 //@   ensures[C11] forall x *nri.PodSandbox :: old(alive(x)) ==> x.Id == old(x.Id)
